@@ -15,7 +15,7 @@ RULE = ('(a) random valid configurations (1-3 connections x 1-3 protect entries,
         'same oracle; also with the configuration switched ESP <-> AH between the two incarnations (the fake kernel interprets the protocol octet of FLUSHSA as xfrm_id_proto_match does). (c) ACQUIRE mapping: for every protect entry, kernel-encoded ACQUIREs with selectors at the corners of the entry (first / last address, '
         'port 0 / the entry\'s port / 65535; for an any-protocol any-port entry also 17 special points such as UDP 500->500, 4500, DNS, ICMP, ESP, AH, GRE, SCTP) are fed through the real main_loop: the negotiation goes to that connection\'s peer, re-uses an established IKE_SA with '
         'it (CREATE_CHILD_SA instead of a new IKE_SA_INIT), and the request opened by the wire shadow carries the entry\'s proposal, mode (and the SAs then installed its lifetime), and TSi/TSr that contain '
-        'the acquire\'s selector and the entry\'s selector and lie inside the entry\'s; an ACQUIRE with an unknown index emits nothing and leaves the table unchanged; bursts of 2-5 ACQUIREs for different flows of one entry arriving while the IKE_SA is busy (handshake, DPD, IKE_SA rekey or CHILD_SA rekey in flight) are all served: every flow is asked for on the wire and gets its CHILD_SA, no IKE_SA lost. '
+        'the acquire\'s selector and the entry\'s selector and lie inside the entry\'s; an ACQUIRE with an unknown index emits nothing and leaves the table unchanged; bursts of 2-5 ACQUIREs for different flows of one entry arriving while the IKE_SA is busy (handshake, DPD, IKE_SA rekey or CHILD_SA rekey in flight) are all served: every flow is asked for on the wire and gets its CHILD_SA, no IKE_SA lost; an ACQUIRE that shares its loop turn with a datagram (whose handling raises, or an authentic probe) or with a second ACQUIRE is negotiated in that turn or the next. '
         'distinct = configuration / restart point / acquire signatures.')
 ASSUMPTIONS = ['fake kernel: model SPD keyed by (selector, direction); NEWPOLICY of an existing key => EEXIST like Linux']
 SHARDS = {'quick': 8, 'thorough': 16}
@@ -416,6 +416,63 @@ def double_acquire(ck, i):
         ck.violation('acquires-during-a-busy-ike-sa-were-not-all-served', {'ike_sas': [(s_.state.name, len(s_.child_sas)) for s_ in a.ctl.ike_sas], 'sad': len(a.kernel.sad), 'want_children': want}, sim.case)
 
 
+def acquire_in_a_busy_turn(ck, i):
+    """ONE loop turn finds a datagram whose handling raises (or is simply served) on an IKE socket AND a kernel ACQUIRE on the netlink socket: the ACQUIRE
+    is negotiated, in this turn or the next (what the turn did not read is still waiting in its socket)."""
+    kinds = ['ike-sa-init-from-an-unconfigured-address', 'five-octets', 'garbage-with-a-header', 'authentic-dpd-probe', 'two-acquires']
+    kind = kinds[i % len(kinds)]
+    established = (i // len(kinds)) % 2 == 1
+    sim, a, b = S.make_pair(ck.seed * 73 + i, dpd=600, lifetime=3600)
+    sim.case = {'family': 'acquire-in-a-busy-turn', 'datagram': kind, 'ike_sa_exists': established}
+    if established or kind == 'authentic-dpd-probe':
+        if not S.handshake(sim, a, b):
+            return
+    rng = ck.rng('busy-turn', i)
+    from vf import gen
+    pc = list(a.conf.ike_configurations.values())[0].protect[0]
+    sel = {'family': socket.AF_INET, 'saddr': S.A4, 'daddr': S.B4, 'sport': 7400 + i, 'dport': pc.peer_ts.get_port(), 'sport_mask': 0xFFFF, 'dport_mask': 0xFFFF,
+           'prefixlen_s': 32, 'prefixlen_d': 32, 'proto': int(pc.my_ts.ip_proto)}
+    acq = xfrmdec.enc_acquire(S.B4, S.A4, sel, (pc.index << 3) | 1, proto=50, family=socket.AF_INET, mode=int(pc.mode))
+    udps, evs = [], [acq]
+    if kind == 'ike-sa-init-from-an-unconfigured-address':
+        udps = [('198.51.100.77', S.A4, codec.encode_clear(dict(gen.typical_messages(rng)['ike_sa_init'], spi_r=bytes(8))))]
+    elif kind == 'five-octets':
+        udps = [(S.B4, S.A4, b'\x01\x02\x03\x04\x05')]
+    elif kind == 'garbage-with-a-header':
+        udps = [(S.B4, S.A4, gen.rb(rng, 16) + bytes([33, 0x20, 34, 0x08]) + bytes(4) + (60).to_bytes(4, 'big') + gen.rb(rng, 32))]
+    elif kind == 'authentic-dpd-probe':
+        bsa = b.ctl.ike_sas[0]
+        bsa.start_dpd_at = sim.clock.t - 1
+        b.step('tick')
+        d_ = sim.net.pop(0)
+        udps = [(d_.src, d_.dst, d_.data)]
+    else:
+        sel2 = dict(sel, sport=sel['sport'] + 1000)
+        evs = [acq, xfrmdec.enc_acquire(S.B4, S.A4, sel2, (pc.index << 3) | 1, proto=50, family=socket.AF_INET, mode=int(pc.mode))]
+    wire0 = len(sim.wire)
+    a.keep_unread = True
+    rec = a.step('multi', udp=udps, xfrm_event=evs)
+    turns = 1
+    while a.unread_after_step and turns < 4 and not rec.died:
+        rec = a.step('tick')
+        turns += 1
+    a.keep_unread = False
+    sim.drain()
+    sh = SH.Shadow(S.W.dh_log, None, check_dh=False)
+    sh.feed(sim.wire)
+    ck.count('busy_turn.runs')
+    ck.seen('busy_turn.kinds', (kind, established))
+    ck.nontrivial(('busy-turn', kind, established, turns))
+    want_ports = {sel['sport']} | ({sel['sport'] + 1000} if kind == 'two-acquires' else set())
+    asked = {s_['sport'] for ex in sh.exch.values() for pl in ex.get('inner') or [] if pl['type'] == codec.TSI for s_ in pl['selectors'] if s_['sport'] == s_['eport']}
+    if rec.died:
+        ck.violation(f'loop-died:{type(rec.exc).__name__}:acquire-in-a-busy-turn', {'exc': repr(rec.exc)[:120]}, sim.case)
+    elif not want_ports <= asked:
+        ck.violation(f'acquire-served-in-the-same-loop-turn-as-another-event-was-never-negotiated:{kind}', {'flows_never_asked_for': sorted(want_ports - asked), 'emitted': len(sim.wire) - wire0}, sim.case)
+    else:
+        ck.count('busy_turn.negotiated')
+
+
 def unknown_index_fresh(ck, i):
     """Unknown index while NO IKE_SA with that peer exists (a fresh IKE_SA object must not be left behind)."""
     sim, a, b = S.make_pair(ck.seed * 67 + i)
@@ -452,6 +509,9 @@ def run(ck):
             acquire_case(ck, ck.rng('acq', i), i)
     if ck.mine(1):
         unknown_index_fresh(ck, 1)
+    for i in range(30 if not thorough else 300):
+        if ck.mine(i + 5):
+            acquire_in_a_busy_turn(ck, i)
     for i in range(48 if not thorough else 480):
         if ck.mine(i + 2):
             double_acquire(ck, i)
@@ -467,6 +527,7 @@ def verdict(ck):
     ck.floor('acquires for special protocol / port points of an any-any entry', c['acquire.special_flows'], 100)
     ck.floor('offered proposals compared with the entry as written', c['acquire.proposals_compared'], 120)
     ck.floor('offers of an entry whose first DH group the peer refuses', c['acquire.pfs_offers'], 15)
+    ck.floor('ACQUIREs sharing their loop turn with another event and negotiated', c['busy_turn.negotiated'], 25)
     ck.floor('acquires sent', c['acquire.sent'], 150)
     ck.floor('offers checked', c['acquire.offers_checked'], 120)
     ck.floor('installed lifetimes checked', c['acquire.lifetimes_checked'], 100)
